@@ -12,11 +12,12 @@ def main(argv):
         return 2
     if argv[0] == "--setup":
         core.install_repo_path()
+        import json
         n = 0
-        for f in sorted(os.listdir(os.path.join(core.VERIF, "mc", "props"))):
-            if f.startswith("c") and f.endswith(".py"):
-                importlib.import_module("mc.props." + f[:-3])
-                n += 1
+        man = json.load(open(os.path.join(core.VERIF, "MANIFEST.json")))
+        for c in man["checks"]:
+            importlib.import_module("mc.props." + c["property_id"].lower())
+            n += 1
         print("setup ok: %d check modules import; repo=%s" % (n, core.REPO))
         return 0
     pid = argv[0].upper()
